@@ -18,13 +18,15 @@ import (
 // ------------------------------------------------------------ enumeration
 
 // JSON texts of the scalar alphabet.
-var scalarsQuick = []string{
+var scalarsCore = []string{
 	`null`, `true`, `false`, `0`, `-1`, `1.5`, `9007199254740993`, `100000000000000000000`,
 	`""`, `"a"`, `"é"`, `"\"\n\\"`, `"12"`, `"true"`,
 }
 
+var scalarsQuick = append(append([]string{}, scalarsCore...), `9223372036854775807`, `"null"`, `"-"`)
+
 var scalarsThoroughExtra = []string{
-	`"null"`, `"-"`, `"a b"`, `"1e5"`, `9223372036854775807`, `-0.0`, `1e300`, `"[x"`, `"a:b"`, `"#c"`,
+	`"a b"`, `"1e5"`, `-0.0`, `1e300`, `"[x"`, `"a:b"`, `"#c"`,
 }
 
 // keys of single-member objects (multi-member objects use a, b, c in order)
@@ -100,10 +102,10 @@ func enumTrees(budget int, scalars, singleKeys []string, emit func(text string, 
 	}
 }
 
-// docAlphabets: quick = every tree with <= 4 nodes over the 14-scalar
+// docAlphabets: quick = every tree with <= 4 nodes over the 17-scalar
 // alphabet; thorough = every tree with <= 4 nodes over the 24-scalar alphabet
 // and 6 single-member keys, plus every tree with exactly 5 nodes over the
-// 14-scalar alphabet (the 5-node sweep over 24 scalars is 2.6 million
+// 14-scalar core alphabet (the 5-node sweep over 24 scalars is 2.6 million
 // documents, beyond the time budget).
 type docSweep struct {
 	budget, from  int
@@ -115,7 +117,7 @@ func docAlphabets(tier string) []docSweep {
 		return []docSweep{
 			{budget: 4, from: 1, scalars: append(append([]string{}, scalarsQuick...), scalarsThoroughExtra...),
 				keys: append(append([]string{}, singleKeysQuick...), singleKeysThoroughExtra...)},
-			{budget: 5, from: 5, scalars: scalarsQuick, keys: singleKeysQuick},
+			{budget: 5, from: 5, scalars: scalarsCore, keys: singleKeysQuick},
 		}
 	}
 	return []docSweep{{budget: 4, from: 1, scalars: scalarsQuick, keys: singleKeysQuick}}
